@@ -96,18 +96,18 @@ instance (r : FloatRepr) (bits : Nat) : Decidable (ReprFaithful r bits) := by
 
 /-! ## one constant: text and recorded type -/
 
-/-- The emitted text is a C++ literal (or `-literal`) of the same value and kind as the constant,
+/-- The emitted text is a C++ literal (or `-literal`, or one of them in parentheses) of the same value and kind as the constant,
 and the type recorded for it can hold the value. A string literal has to denote the string under
 both lexing dialects: C++17/GNU, and ISO C++ before 17 where trigraphs are replaced first. -/
 def ConstOk (c : PyConst) (text : Str) (ty : CTy) : Prop :=
   match c with
   | .str s => cppStringL text = some s ∧ cppStringTriL text = some s ∧ ty = .string
   | .int n =>
-    match cppIntL text with
+    match cppIntE text with
     | some (v, t) => v = n ∧ fitsTy t n = true ∧ fitsTy ty n = true
     | none => False
   | .float (.finite ..) bits =>
-    match cppFloatL text with
+    match cppFloatE text with
     | some (d, t) => roundsTo d bits = true ∧ t = .double ∧ ty = .double
     | none => False
   | .float _ _ => False
@@ -307,7 +307,7 @@ def constAt (c : PyConst) (text : Str) : Option Str :=
     | some (v, rest), some (vt, _) => if v = s ∧ vt = s then some rest else none   -- both lexing dialects
     | _, _ => none
   | _ =>
-    let p := numToken text
+    let p := numTokenP text
     if decide (ConstOk c p.1 (match c with | .int _ => .int | .float _ _ => .double | _ => .bool)) then some p.2
     else none
 
